@@ -2,6 +2,7 @@
 from __future__ import annotations
 
 import ast
+from fractions import Fraction
 
 from .. import dag, ekore_model as em, kern
 from ..arr import Arr
@@ -23,6 +24,8 @@ META = {
             "dispatchers refuse unknown orders/methods with NotImplementedError/ValueError and a non-empty message; raise "
             "statements in configuration-dispatch functions use those two classes. (4) every function of the kernel, scale-"
             "variation and dispatcher modules returns a value on all paths (no implicit None)."
+            " (2c) COUPLING LOGARITHMS: couplings_expanded_alphaem_running / _fixed_alphaem are evaluated with exact rationals on corners of the perturbative range (alpha_s(mu_ref) 0.11-0.35 matched to reference scales 1-173 GeV, alpha_em 0.001-0.01, targets inside the patch, orders up to (4,2)); the argument of every logarithm they take must be positive."
+            " (2d) parts.match is evaluated for every heavy quark, direction and mass scheme (recording stand-ins): it never ends in an IndexError / TypeError / AttributeError."
             " (2b) DIVISORS: in a second extraction with real parts taken literally every divisor that is a constant of the configuration is evaluated (mpmath) for nf 3-6; an exactly vanishing one (the real part of a purely imaginary square root) is a violation.",
     "note": "Finiteness of the numbers themselves needs execution and is not decided. The domain rule decides constants of the "
             "configuration only (arguments depending on couplings or N are skipped and counted).",
@@ -52,6 +55,71 @@ def _is_zero_slot(x):
 def _cplx_typed(arg_ast):
     s = ast.unparse(arg_ast)
     return "complex(" in s or "1j" in s or "complex128(" in s
+
+
+def _coupling_logs(chk, src):
+    """(2c) the expanded coupling formulas on corners of the perturbative range: every logarithm they take has a positive argument.
+
+    The corners follow the property's range: alpha_s(mu_ref) between 0.08 and 0.35, alpha_em between 0.001 and 0.01, reference scales
+    between 2 and 200 GeV, the target in the same flavour patch.  Each instance is (alpha_s at the reference, nf, mu_ref, mu)
+    with a strong coupling that is realistic for that reference scale; evolution towards higher scales, and one long step down."""
+    from .. import numeval
+
+    mp = numeval.mp
+    CP = "eko.couplings"
+    fr = src.func(f"{CP}.couplings_expanded_alphaem_running")
+    ff = src.func(f"{CP}.couplings_expanded_fixed_alphaem")
+    found = []
+    ctx = [None]
+    n_logs = [0]
+
+    def hook(kind, node, env, args):
+        if kind not in ("numpy.log", "math.log"):
+            return
+        arg = args[0]
+        if isinstance(arg, (Arr, Top)):
+            return
+        nd = dag.tonode(arg)
+        if dag.symbols(nd) - {"pi"}:
+            return
+        unint = set()
+        v = numeval.evaluate(nd, {}, uninterpreted=unint)
+        if unint:
+            return
+        n_logs[0] += 1
+        if mp.im(v) == 0 and mp.re(v) <= 0:
+            found.append((env.func_name, stmt_text(node)[:110], env.module.relpath, node.lineno, ctx[0], mp.nstr(mp.re(v), 5)))
+
+    pe = PE(src)
+    pe.site_hook = hook
+    pi4 = 4 * Fraction(355, 113)
+    corners = [(Fraction(35, 100), 3, 1, Fraction(3, 2)), (Fraction(35, 100), 4, 2, Fraction(9, 2)), (Fraction(22, 100), 5, Fraction(9, 2), 173),
+               (Fraction(118, 1000), 5, Fraction(912, 10), 173), (Fraction(11, 100), 6, 173, 10 ** 4), (Fraction(118, 1000), 5, Fraction(912, 10), Fraction(9, 2))]
+    for alphas, nf, mu0, mu1 in corners:
+        for alphaem in (Fraction(1, 1000), Fraction(1, 100)):
+            for order in ((1, 1), (2, 1), (3, 2), (4, 2), (3, 0)):
+                for nl in (2, 3):
+                    ctx[0] = f"order={order},nf={nf},nl={nl},alpha_s({float(mu0)} GeV)={float(alphas)},alpha_em={float(alphaem)},mu={float(mu1)} GeV"
+                    aref = Arr.from_nested([alphas / pi4, alphaem / pi4])
+                    try:
+                        if order[1] > 0:
+                            pe.call(fr.qname, [order, aref, nf, nl, Fraction(mu0) ** 2, Fraction(mu1) ** 2, False])
+                            pe.call(fr.qname, [order, aref, nf, nl, Fraction(mu0) ** 2, Fraction(mu1) ** 2, True])
+                        pe.call(ff.qname, [order, aref, nf, Fraction(mu0) ** 2, Fraction(mu1) ** 2])
+                    except PERaise as e:
+                        found.append((fr.qname, f"raises {e}", fr.module.relpath, fr.lineno, ctx[0], "-"))
+    seen = set()
+    for fname, text, mod, line, inst, val in found:
+        if (fname, text) in seen:
+            continue
+        seen.add((fname, text))
+        chk.fail("logarithm-argument-positive-in-the-perturbative-range", fname,
+                 f"`{text}` takes the logarithm of {val} for {inst}: the expanded coupling is NaN there (and every operator computed with it), "
+                 f"although couplings and scales are in the perturbative range", where=f"{mod}:{line}", instance=text)
+    if not found:
+        chk.ok("logarithm-argument-positive-in-the-perturbative-range", CP, f"{n_logs[0]} logarithms evaluated on {len(corners)} corners x orders x couplings",
+               how="PE with exact rationals + 50-digit evaluation of the arguments")
+    chk.floor("coupling logarithms evaluated", n_logs[0], 200)
 
 
 def run(chk):
@@ -255,6 +323,13 @@ def run(chk):
         chk.ok("division-by-a-vanishing-configuration-constant", "eko.kernels", f"{n_div[0]} divisions by configuration constants evaluated for nf 3..6")
     chk.floor("divisions by configuration constants", n_div[0], 20)
     chk.floor("real-domain call sites with constant argument", len(sites), 3)
+
+    _coupling_logs(chk, src)
+    # the matching part of every heavy quark, in both directions, is computed or refused cleanly (parts.match with recording stand-ins,
+    # shared with C02): an index into the per-quark tables that is off by one crashes for the top quark only
+    from .c02 import matching_wiring
+
+    matching_wiring(chk, src, rule="matching-part-is-computed-or-refused-cleanly", crashes_only=True)
 
     # ---- (3) clean refusals in kernel dispatchers ---------------------------------------------------------------
     for q, args in ((f"{kern.NS}.dispatcher", [(5, 0), M["ITERATE_EXACT"], kern.ns_gamma(4), a1, a0, 4]),
